@@ -5,7 +5,7 @@ from vf.lazy import ck, libx, common
 from vf.monitors import algos
 
 PROP = "C06"
-TECHNIQUE = ('runtime monitoring: partition / consensus / flag of ParCons with a recording proxy as auxiliary algorithm, judged against the DP optimum restricted to the partition vs the global optimum')
+TECHNIQUE = ('runtime monitoring: partition / consensus / flag of ParCons with a recording proxy as auxiliary algorithm, judged against the DP optimum restricted to the partition vs the global optimum; composite block oracle for 11-40 elements; same objects again after an in-place mutation')
 RULE = ("cases = dataset (D7, D9, D10 first: sparse rankings missing a whole component, >= 3 components; D2-D4, D8; n<=8 "
         "quick, <=10 thorough; 8 % of the cases: 11-24 (thorough: -40) elements in ordered blocks judged by the composite "
         "oracle ref.BlockOptimum, applied only when the cost table shows 'before' to be a cheapest placement of every "
@@ -59,12 +59,17 @@ def gen_case(rng, ctx):
         ctx.count("gen:D23xS15")
         return {"ds": ds, "scheme": sch, "dcls": "D23", "scls": scls, "bound": rng.choice([0, 2, 3, 80, 80]),
                 "aux": rng.choice(AUX), "libseed": rng.randrange(10 ** 6), "other": rng.choice(OTHERS)}
+    if rng.random() < 0.04:
+        # a component held together by ties only around a perfectly balanced pair (gen D26)
+        cls, ds = gen.dataset(rng, cls="D26", n=rng.choice([3, 4, 5, 6]))
+        ds = libx.normalise_raw(ds)
+        return {"ds": ds, "scheme": gen.scheme(rng, "S1 S1 S2 S3")[1], "dcls": cls, "scls": "S1", "bound": rng.choice([0, 2, 80, 80]), "aux": rng.choice(AUX), "libseed": rng.randrange(10 ** 6), "other": rng.choice(OTHERS)}
     if rng.random() < 0.06:
         # every pair inverted as often as not, the decision left to who ranks whom, under schemes whose penalties for
         # unranked elements are 2^-20 of the others: costs equal up to a relative 1e-6 and different in fact
         cls, ds = gen.dataset(rng, cls="D25", n=rng.choice([3, 4, 5, 6]), mmax=6)
         ds = libx.normalise_raw(ds)
-        return {"ds": ds, "scheme": gen.scheme(rng, "S17 S17 S16")[1], "dcls": cls, "scls": "S17", "bound": rng.choice([0, 2, 80, 80]), "aux": rng.choice(AUX), "libseed": rng.randrange(10 ** 6), "other": rng.choice(OTHERS)}
+        return {"ds": ds, "scheme": gen.scheme(rng, "S17 S17 S16 S1 S1 S2 S3")[1], "dcls": cls, "scls": "S17", "bound": rng.choice([0, 2, 80, 80]), "aux": rng.choice(AUX), "libseed": rng.randrange(10 ** 6), "other": rng.choice(OTHERS)}
     if rng.random() < 0.4:
         # several non-trivial components of different sizes (blocks of 3 and 4 with pure rotations), bound between the sizes:
         # some components go to the auxiliary algorithm, others to the exact solver, in both orders
